@@ -90,7 +90,7 @@ def impl(arg):
 def units(ctx):
     cs = [] if getattr(ctx, "replay_only", False) else cases(ctx.rng, ctx.thorough)
     oc = [] if getattr(ctx, "replay_only", False) else obj_cases(ctx.rng, ctx.thorough)
-    # the first interpreter writes a receiver back only when it is a local name: o_attr (b.items.append) is for PyAstMut only
-    oc_plain = [c for c in oc if c[0] != "o_attr"]
+    # both interpreters write a receiver back when it is a place (local name or attribute path): b.items.append(..) updates b
+    oc_plain = oc
     return [Unit("flow.semantics", "pysem.run", cs, impl), Unit("flow.semantics.mut", "pysem.run_mut", cs, impl),
             Unit("flow.semantics.obj.mut", "pysem.obj_mut", oc, impl), Unit("flow.semantics.obj", "pysem.obj", oc_plain, impl)]
